@@ -43,10 +43,9 @@ def c01(tier, seed):
     rs = core.drive_and_validate(res, shards, core.dev_set(), "KV read result differs from the ordered-map model",
                                  "kv histories (Put/PutWithTimestamp/Delete, rotations, reopen) with full read battery")
     res.cov["samples"] = core.sample_events(rs[0]["trace"], 8, ops={"put", "del", "get", "range", "pscan", "getall"})
-    reads = sum(res.extra.get("events_by_op", {}).get(k, 0) for k in ("get", "getall", "range", "pscan", "psscan"))
-    res.cov["distinct_nontrivial"] = reads
-    res.cov["rule"] = ("events = public call returns recorded from the real library; non-trivial = read calls "
-                       "(get/getall/range/pscan/psscan) whose full result TLC compared with KVSpec on the model state")
+    res.cov["distinct_nontrivial"] = core.distinct_events(rs, {"get", "getall", "range", "pscan", "psscan"})
+    res.cov["rule"] = ("events = public call returns recorded from the real library; non-trivial = distinct read calls "
+                       "(get/getall/range/pscan/psscan with distinct arguments or results) whose full result TLC compared with KVSpec on the model state")
     res.assumptions += ["values are printable ASCII; keys from a 13-key universe with shared prefixes",
                         "expiry instants are kept >= 500 s away from the wall clock"]
     return res.finish()
@@ -167,8 +166,8 @@ def c08(tier, seed):
                                  "mixed histories over KV/list/set/zset with real and shadow reopens")
     res.cov["samples"] = core.sample_events(rs[0]["trace"], 6, ops={"close", "open", "obs", "shadow"})
     ops = res.extra.get("events_by_op", {})
-    res.cov["distinct_nontrivial"] = ops.get("open", 0) + ops.get("shadow", 0)
-    res.cov["rule"] = ("non-trivial = real Close/Open pairs plus shadow reopens (copy of the directory opened separately), each followed "
+    res.cov["distinct_nontrivial"] = ops.get("open", 0) + core.distinct_events(rs, {"shadow"})
+    res.cov["rule"] = ("non-trivial = real Close/Open pairs plus distinct shadow reopens (copy of the directory opened separately), each followed "
                        "by a full observation of every bucket and structure that TLC compared with Replay(log) and with the pre-close state")
     res.assumptions += ["lists/sets/sorted sets only in HintKeyValAndRAMIdxMode (README caveat); KV histories in both RAM modes; "
                         "sparse mode is covered by C02"]
@@ -332,8 +331,8 @@ def c04(tier, seed):
     rs = core.drive_and_validate(res, shards, core.dev_set(), "a write to one bucket changed what a read of another bucket returns (or a bucket does not return its own data)",
                                  "histories over adversarial bucket names ('a','ab','','a|b','b' with keys such that bucket+key concatenations coincide) for KV, lists, sets and sorted sets, with a full observation of every bucket after every transaction")
     res.cov["samples"] = core.sample_events(rs[0]["trace"], 4, ops={"obs"})
-    res.cov["distinct_nontrivial"] = res.extra.get("events_by_op", {}).get("obs", 0)
-    res.cov["rule"] = ("non-trivial = full observations of every bucket of every structure taken after a transaction; TLC compares each with the model, "
+    res.cov["distinct_nontrivial"] = core.distinct_events(rs, {"obs"})
+    res.cov["rule"] = ("non-trivial = distinct full observations of every bucket of every structure taken after a transaction; TLC compares each with the model, "
                        "in which a commit changes only the buckets its records name (action property BucketIsolation, model-checked)")
     return res.finish()
 
@@ -453,8 +452,8 @@ def c02(tier, seed):
     ops = res.extra.get("events_by_op", {})
     res.cov["distinct_nontrivial"] = ops.get("get", 0) + ops.get("obs", 0)
     ops = res.extra.get("events_by_op", {})
-    res.cov["distinct_nontrivial"] = sum(ops.get(k, 0) for k in ("get", "getall", "range", "pscan", "psscan", "obs"))
-    res.cov["rule"] = ("non-trivial = Get / GetAll / RangeScan / PrefixScan / PrefixSearchScan calls and full observations, each compared exactly by TLC "
+    res.cov["distinct_nontrivial"] = core.distinct_events(rs, {"get", "getall", "range", "pscan", "psscan", "obs"})
+    res.cov["rule"] = ("non-trivial = distinct Get / GetAll / RangeScan / PrefixScan / PrefixSearchScan calls and full observations, each compared exactly by TLC "
                        "with the ordered-map model (KVSpec), as in C01")
     res.assumptions += ["single-bucket histories with unambiguous bucket+key concatenations (the statement's scope)"]
     return res.finish()
